@@ -41,6 +41,7 @@ API (everything else is private)
   ``.pump()``                 call after any client-side action that may have written a command
                               (raises ``BootFailed`` from the constructor if post_bootstrap did not fire)
   ``.emit(report)``           ``pipe.inject(wire.encode_event(...))`` - through the real parser
+  ``.close_lines`` / ``.close_replies``  CLOSE* commands received so far and tor's answer to each
   ``.held``                   replies to CLOSECIRCUIT/CLOSESTREAM not yet sent (``hold_acks=True``)
   ``.ack()``                  send the oldest held reply; returns it (or None)
   ``.extra_handler``          optional ``handler(line)`` consulted first (C09: ATTACHSTREAM, SETCONF)
@@ -719,7 +720,8 @@ class Session(object):
         self.held = []
         self.extra_handler = None
         self.subscribed = set()
-        self.close_lines = []
+        self.close_lines = []           # CLOSECIRCUIT/CLOSESTREAM lines received, in order
+        self.close_replies = []         # the reference reply to each of them (same index)
         self.server = ScriptedServer(self._handler)
         self.pipe = ControlPipe(self.server, auto=True)
         self.state = TorState(self.pipe.proto)
@@ -767,6 +769,7 @@ class Session(object):
         if line.startswith("CLOSECIRCUIT ") or line.startswith("CLOSESTREAM "):
             self.close_lines.append(line)
             reply = self.world.close_command(line)
+            self.close_replies.append(reply)
             if self.hold_acks:
                 self.held.append(reply)
                 return None
